@@ -369,7 +369,7 @@ Section Top.
   Lemma resolve_wild_err src e : resolve_wild sroot src = inr e -> e = EScope \/ e = EOther.
   Proof.
     unfold resolve_wild.
-    destruct (split_wild _) as [p1 p2]. destruct (existsb has_unsupported _); [intro H; inversion H; auto|].
+    destruct (split_wild_e _) as [p1 p2]. destruct (existsb has_unsupported_e _); [intro H; inversion H; auto|].
     destruct p2; [discriminate|]. destruct (s_resolve sroot _) eqn:E; [discriminate|].
     intro H; inversion H; subst. eapply s_resolve_err; eauto.
   Qed.
